@@ -2,7 +2,6 @@ package main
 
 import (
 	"bytes"
-	"strconv"
 	"encoding/json"
 	"errors"
 	"fmt"
@@ -11,6 +10,7 @@ import (
 	"path/filepath"
 	"reflect"
 	"runtime"
+	"strconv"
 	"strings"
 	"time"
 
@@ -61,7 +61,7 @@ type Prior struct {
 
 // C12Task is one concurrent parse.
 type C12Task struct {
-	Target string      `json:"target"`
+	Target string `json:"target"`
 	// Entry: string | bytes | reader | file | procfd | samefile | seekreader, or
 	// hugereader:N / hugefile:N (the text preceded by N MiB of comment lines, so
 	// that it lies beyond any fixed limit a reading path may have).
@@ -79,15 +79,15 @@ type C12Scenario struct {
 }
 
 type simReader struct {
-	data  []byte
-	pos   int
-	plan  *ReaderPlan
-	r     *rng
-	err   error
-	fired bool
-	zeros int
-	calls int
-	run   int
+	data               []byte
+	pos                int
+	plan               *ReaderPlan
+	r                  *rng
+	err                error
+	fired              bool
+	zeros              int
+	calls              int
+	run                int
 	run0done, run1done bool
 }
 
@@ -166,6 +166,9 @@ type parseResult struct {
 func (p *parseResult) accepted() bool { return p.m != nil && p.err == nil && p.panicMsg == "" }
 
 var tmpDir string
+
+// samefilePrev, when set, is what the path of the entry samefile held before.
+var samefilePrev string
 
 // keepPointers makes parseVia record the object addresses of accepted modules;
 // priorModules are the modules earlier activity of the run left behind.
@@ -272,6 +275,12 @@ func parseVia(name, text, entry string, plan *ReaderPlan, uniq string) *parseRes
 			size := (len(text)/8192 + 2) * 8192
 			stamp := time.Unix(1577836800, 0)
 			decoy := padText("@decoy = global i32 1\ndefine i32 @decoy.f() {\n  ret i32 7\n}\n", size)
+			if samefilePrev != "" {
+				if len(samefilePrev) > len(text) {
+					size = (len(samefilePrev)/8192 + 2) * 8192
+				}
+				decoy = padText(samefilePrev, size)
+			}
 			if err := os.WriteFile(p, []byte(decoy), 0o644); err != nil {
 				panic("harness: cannot write temp file: " + err.Error())
 			}
@@ -791,6 +800,7 @@ func padText(text string, size int) string {
 	}
 	return text + ";" + strings.Repeat(" ", n-2) + "\n"
 }
+
 var priorKinds = []string{"parse", "parse-print", "same-mutate", "same-print-twice"}
 
 func genReader(r *rng, textLen int, allowFail bool) *ReaderPlan {
@@ -823,13 +833,37 @@ func c12GenScenario(r *rng, all []corpusFile, concurrent bool, lex int) *C12Scen
 	if concurrent {
 		nt = 2 + r.intn(3)
 	}
+	// One concurrent run in ten is a crowd: 16 to 32 callers, small texts, all
+	// through the same entry point (what is bounded per process — tokens, slots,
+	// descriptors, table sizes — only shows when many callers are inside at once).
+	crowd := concurrent && r.chance(1, 10)
+	crowdEntry := ""
+	var small []corpusFile
+	if crowd {
+		nt = 16 + r.intn(17)
+		crowdEntry = []string{"file", "file", "string", "bytes", "reader", "samefile", "seekreader"}[r.intn(7)]
+		for _, cf := range all {
+			if len(cf.Text) < 3000 {
+				small = append(small, cf)
+			}
+		}
+		if len(small) == 0 {
+			small = all
+		}
+	}
 	for i := 0; i < nt; i++ {
 		cf := pickTarget()
+		if crowd {
+			cf = small[r.intn(len(small))]
+		}
 		if concurrent && i > 0 && r.chance(1, 3) {
 			cf.Name = sc.Tasks[0].Target // the same text on two goroutines
 			cf.Text, _ = corpusText(cf.Name)
 		}
 		t := C12Task{Target: cf.Name, Entry: entries[r.intn(len(entries))]}
+		if crowd {
+			t.Entry = crowdEntry
+		}
 		if t.Entry == "reader" {
 			t.Reader = genReader(r, len(cf.Text), true)
 		}
@@ -879,6 +913,14 @@ func c12GenScenario(r *rng, all []corpusFile, concurrent bool, lex int) *C12Scen
 	}
 	sc.Tape = genTape(r, tp)
 	sc.Tape.StepCap = 400000000
+	if crowd {
+		// everybody gets going before anybody gets far
+		for i := range sc.Tape.Gaps {
+			if i < 256 {
+				sc.Tape.Gaps[i] = uint32(1 + int(sc.Tape.Gaps[i])%3)
+			}
+		}
+	}
 	if lex >= 0 {
 		for i := range sc.Tape.Perms {
 			sc.Tape.Perms[i] = simrt.PermLex | uint32(lex)<<3
@@ -974,6 +1016,9 @@ func c12Search() {
 			sum.Counters["parses via "+t.Entry]++
 		}
 		sum.Counters["prior activities"] += int64(len(sc.Prior))
+		if len(sc.Tasks) >= 16 {
+			sum.Counters["crowd runs (16 to 32 concurrent parses through one entry point)"]++
+		}
 		sum.Counters["map-range visits under simulator control"] += s.PermVisits
 		sum.Counters["map-range visits with >= 2 keys"] += s.PermNontrivial
 		sum.Counters["map-range visits in non-canonical order"] += s.PermNonIdentity
